@@ -45,11 +45,12 @@ ASSUMPTIONS = [
     "on the first pattern of every geometry the configurations (degree=order, both modes) and (degree=2*order, "
     "cartesian) and the edge integrals with 1-D degree=order additionally run the eager public path "
     "construct_function_space / interpolate_to_points / compute_field_gradient / integrate_function_on_edges",
-    "create_padded_quadrature_rule_1D is asserted for degrees 0..9 only (it holds five tabulated rules; degrees "
-    ">= 10 silently clamp to the 5-point rule -- recorded as a branch, outside the 1-D quantifier of the statement "
-    "which mirrors create_quadrature_rule_1D)",
+    "create_padded_quadrature_rule_1D holds five tabulated rules; stated degrees >= 10 silently clamp to the 5-point rule "
+    "(exact to degree 9 only): reported under ONE open finding key (known_findings.json), degrees 0..9 are asserted like "
+    "the unpadded rule",
 ]
 TAU = 1e-10
+PADDED_KEY = "create_padded_quadrature_rule_1D|stated-degree>=10|silently-clamped-to-5-point-rule"
 TOLERANCES = {
     "all numerical oracles": "relative 1e-10 w.r.t. sum|terms| of the sum being tested (sum|N_a|, sum|grad N_a|, "
                              "(sum|N_a|) max_a|f(X_a)|, (sum|grad N_a|) max_a|f(X_a)|, integral of |integrand| from the reference rule, sum over edges of "
@@ -187,6 +188,11 @@ def _run_rules(tier, seed, rec):
                 r = float(_rel(abs(got - ex), float(onp.sum(onp.abs(w) * onp.abs(xi) ** i)) + ex))
                 if i <= d:
                     worst = max(worst, r)
+                    if not asserted and not r <= TAU:
+                        # stated degree beyond the five tabulated padded rules: one finding key for the whole class
+                        viol(PADDED_KEY, cid, {"degree": d, "monomial": i, "observed": got, "expected": ex, "rel_err": r,
+                                               "points_used": int(onp.count_nonzero(w))})
+                        break
                     if asserted and not r <= TAU:
                         viol("create_quadrature_rule_1D|%s|inexact" % kind, cid,
                              {"degree": d, "monomial": i, "observed": got, "expected": ex, "rel_err": r,
